@@ -6,6 +6,7 @@ import (
 	"io"
 	"sort"
 	"strings"
+	"time"
 
 	"go.pennock.tech/tabular"
 	"go.pennock.tech/tabular/csv"
@@ -25,6 +26,7 @@ const ID = "C13"
 //	op      a table-building operation
 //	reg     register a recording callback: Owner kind, When, Target; Ref/Col choose the owner among what exists
 //	render  one render pass (Via: invoke | csv)
+//	update  Cell.Update() on a cell (Ref, Col): fires nothing
 //	dense     N cell callbacks on the table plus one on each of the first three columns, all in the slot When
 //	seedcell  a stand-alone cell gets N render callbacks registered on it and is then added (by value) to
 //	          the rows Ref and Col: both copies carry the registration; later registrations on one copy
@@ -46,7 +48,18 @@ type Step struct {
 	// Err (reg, dense): the callback does its work and then reports an error; that is no reason for any other
 	// callback not to be invoked
 	Err bool `json:"err,omitempty"`
+	// Grow (reg with owner table, add time, target row): having recorded the row it is handed, the callback adds one
+	// more cell to it - the row is live, and so are all its cells for the callbacks that follow
+	Grow bool `json:"grow,omitempty"`
+	// Lazy (reg at a render time): on its first invocation the callback registers one more (silent) callback on its
+	// own table: registration is open at any time, also from within a pass
+	Lazy bool `json:"lazy,omitempty"`
 }
+
+// silent is a callback that does nothing.
+type silent struct{}
+
+func (silent) UpdateProperties(tabular.PropertyOwner) error { return nil }
 
 type Case struct {
 	Creator string `json:"creator,omitempty"`
@@ -115,12 +128,17 @@ type world struct {
 	hdrRow    *tabular.Row
 	hdrRowGen int
 	inHdrOp   bool
+	// rows a growing callback added a cell to during the operation in progress; the cells so added
+	grownRows []*tabular.Row
+	grown     map[ident]bool
 }
 
 type recorder struct {
 	r    *reg
 	w    *world
 	fail bool
+	grow bool
+	lazy bool
 }
 
 func (rc *recorder) UpdateProperties(po tabular.PropertyOwner) error {
@@ -136,6 +154,16 @@ func (rc *recorder) UpdateProperties(po tabular.PropertyOwner) error {
 		w.late = append(w.late, pendingEvent{len(w.actual) - 1, po, w.seq})
 	} else {
 		w.marks[event{rc.r.id, obj}] = w.seq
+	}
+	if rc.lazy {
+		rc.lazy = false
+		w.t.RegisterPropertyCallback(w.t, tabular.CB_AT_RENDER, tabular.CB_ON_CELL, silent{})
+	}
+	if rc.grow && !w.inHdrOp {
+		if row, isRow := po.(*tabular.Row); isRow && !row.IsSeparator() {
+			row.Add(tabular.NewCell("grown"))
+			w.grownRows = append(w.grownRows, row)
+		}
 	}
 	if rc.fail {
 		return fmt.Errorf("callback %d reports a problem of its own", rc.r.id)
@@ -443,7 +471,12 @@ func (w *world) describe(r *reg) string {
 	return fmt.Sprintf("reg%d(owner=%s col=%d cell=%d when=%d target=%d)", r.id, r.owner, r.col, r.cell, r.when, r.target)
 }
 
+// CheckCase: a case takes milliseconds; should it not come back in half a minute, Watch looks for a deadlock.
 func CheckCase(c Case) *ev.Violation {
+	return ev.Watch(30*time.Second, "go.pennock.tech/tabular", func() *ev.Violation { return checkCase(c) })
+}
+
+func checkCase(c Case) *ev.Violation {
 	t := gen.NewTable(c.Creator)
 	other := tabular.New()
 	other.AddRowItems("unrelated")
@@ -463,6 +496,9 @@ func CheckCase(c Case) *ev.Violation {
 				continue // the header row itself (not reachable through the API): add-time firing on it is unspecified
 			}
 			if r := byID[e.reg]; r != nil && (specified(r, e.obj) || strings.HasPrefix(string(e.obj), "?")) {
+				if r.when == wAdd && w.grown[e.obj] {
+					continue // add-time firing for a cell that a callback added while its row was being attached is not specified
+				}
 				if (r.owner == "table" || r.owner == "column") && r.when == wAdd && r.target == tCell && w.lateCell(e.obj) {
 					continue // add-time firing of table/column callbacks for a cell added after its row was attached is not specified
 				}
@@ -493,6 +529,36 @@ func CheckCase(c Case) *ev.Violation {
 			}
 			w.m.Step(t, *st.Op)
 			w.inHdrOp = false
+			for _, row := range w.grownRows {
+				for i, mr := range w.m.All {
+					if mr.Real != row || mr.Sep || mr.NilCells {
+						continue
+					}
+					for len(mr.Real.Cells()) > len(mr.Cells) {
+						mr.Cells = append(mr.Cells, gen.MCell{It: gen.S("grown"), Live: gen.Materialise(gen.S("grown")), Text: "grown"})
+						mr.LateAdds++
+						if w.grown == nil {
+							w.grown = map[ident]bool{}
+						}
+						w.grown[ident(fmt.Sprintf("X%d.%d", i, len(mr.Cells)-1))] = true
+						if mr.Attached && len(mr.Cells) > w.m.MaxEver {
+							w.m.MaxEver = len(mr.Cells)
+						}
+					}
+				}
+			}
+			w.grownRows = w.grownRows[:0]
+		case "update":
+			// refreshing a cell's text from its item is no occasion for any callback
+			if len(w.m.All) > 0 {
+				mr := w.m.All[((st.Ref%len(w.m.All))+len(w.m.All))%len(w.m.All)]
+				if cells := mr.Real.Cells(); len(cells) > 0 {
+					(&cells[((st.Col%len(cells))+len(cells))%len(cells)]).Update()
+				}
+			}
+			if hs := t.Headers(); len(hs) > 0 && st.Col%2 == 1 {
+				(&hs[0]).Update()
+			}
 		case "render":
 			w.predictRender(&pred)
 			// whichever renderer draws the table, it is one render pass
@@ -659,7 +725,7 @@ func CheckCase(c Case) *ev.Violation {
 					// (a table named as owner through another table's method is ambiguous when it is a wrapper)
 					registrar = other
 				}
-				err := registrar.RegisterPropertyCallback(owner, whens[r.when], targets[r.target], &recorder{r: r, w: w, fail: st.Err && (reps == 1 || rep%2 == 0)})
+				err := registrar.RegisterPropertyCallback(owner, whens[r.when], targets[r.target], &recorder{r: r, w: w, fail: st.Err && (reps == 1 || rep%2 == 0), grow: st.Grow && st.Owner == "table" && r.when == wAdd && r.target == tRow && rep == 0, lazy: st.Lazy && r.when != wAdd && rep == 0})
 				unsupported := (st.Owner == "column" || st.Owner == "cell" || st.Owner == "hdrcell") && r.target == tRow
 				if unsupported != (err != nil) {
 					return ev.V("step %d: registering %s returned error %v; unsupported combination: %v", step, w.describe(r), err, unsupported)
@@ -753,6 +819,9 @@ func Classify(c Case) (bool, interface{}, []string) {
 			add(fmt.Sprintf("reg-%s-w%d-t%d", st.Owner, st.When%4, st.Target%3))
 			if st.Err {
 				add("a-callback-reports-an-error")
+			}
+			if st.Grow && st.Owner == "table" && st.When%4 == wAdd && st.Target%3 == tRow {
+				add("a-row-callback-adds-a-cell-to-the-row-being-attached")
 			}
 			if !rowsSeen {
 				regBeforeRows = true
